@@ -256,6 +256,25 @@ ThmEnergy(w, c) ==
     IN (a[1][1] = 1 /\ a[2][1] = 1 /\ osh = <<a[1][2], a[2][2]>> /\ w.shape[1] <= osh[1] /\ w.shape[2] <= osh[2]) =>
           Eq(Energy(Forward(whole, g)), Scale(osh[1] * osh[2], Energy(whole)))
 
+\* C02 / C09: a plane with MORE samples than the period K = 1/alpha of the transform (an output pixel coarser than lambda F#).
+\* Samples K apart carry the same phase at every output sample, so the transform of the plane FOLDED onto K_r x K_c samples
+\* (samples a multiple of K apart added up, origin on origin) IS the transform of the plane: this is what an FFT on the K grid
+\* has to be given in order to return the Fraunhofer sum of the whole plane (cropping the plane to the grid is something else).
+Fold(fr, K) ==
+    LET m == Len(fr)  n == Len(fr[1])
+        RECURSIVE S(_, _, _, _, _)
+        S(acc, i, j, p, q) == IF i > m THEN acc
+                              ELSE IF j > n THEN S(acc, i + 1, 1, p, q)
+                              ELSE S(IF (Coord(m, 0, i) - Coord(K[1], 0, p)) % K[1] = 0 /\ (Coord(n, 0, j) - Coord(K[2], 0, q)) % K[2] = 0
+                                     THEN Add(acc, fr[i][j]) ELSE acc, i, j + 1, p, q)
+    IN TLCEval([p \in 1..K[1] |-> TLCEval([q \in 1..K[2] |-> S(Zero, 1, 1, p, q)])])
+ThmFold(w, c) ==
+    LET a == Alpha(w, c)
+        osh == OutShape(c)
+        whole == FieldOf(w)
+        g == Geom(a, <<R(0), R(0)>>, osh)
+    IN (a[1][1] = 1 /\ a[2][1] = 1) => MatEq(Forward(whole, g), Forward(Fold(whole, <<a[1][2], a[2][2]>>), g))
+
 \* C04: a tilt element is the same as the corresponding linear phase ramp in the beam
 \* ramp with integer exponent steps (kr, kc) per sample  <=>  displacement (kr/(N alpha_r), kc/(N alpha_c)) samples
 RampBeam(b, kr, kc) == [b EXCEPT !.d = TLCEval([i \in 1..b.sh[1] |-> TLCEval([j \in 1..b.sh[2] |->
